@@ -86,6 +86,8 @@ def strict_json(j, path='$'):
 # synthetic constants and CodeData built around them
 
 EDGE = [None, True, False, Ellipsis, 0, 1, -1, 255, MAXI, MAXI + 1, -MAXI, -MAXI - 1, 2 ** 70, -2 ** 70, 2 ** 64,
+        # ints no C double can hold (>= 2**1024: float(i), math.isnan(i), i / 1 overflow) and around the largest double
+        2 ** 1023, 2 ** 1024 - 2 ** 971, 2 ** 1024 - 2 ** 970, 2 ** 1024, -(2 ** 1024), 10 ** 400, -(10 ** 400), 2 ** 4000 + 1,
         0.0, -0.0, 1.0, 1.5, 5e-324, 1.7976931348623157e308, float('inf'), float('-inf'), float('nan'), 1e16, 0.1,
         0j, complex(0.0, -0.0), complex(-0.0, 0.0), complex(float('inf'), float('nan')), 1 + 2j, complex(1e308, -1e-308),
         complex(float('nan'), 1.0), complex(float('nan'), 2.0), complex(1.0, float('nan')), complex(float('nan'), float('nan')),
